@@ -5,10 +5,12 @@
 package main
 
 import (
+	"bufio"
 	"crypto/tls"
 	"encoding/json"
 	"fmt"
 	"io"
+	"net"
 	"net/http"
 	"os"
 	"strconv"
@@ -59,7 +61,10 @@ func c06() []scenario {
 		}
 	}
 	return []scenario{
-		{"c06: distinct uncached hosts", func() { c := newCfg(); parallel(get(c, "a.test:443", ""), get(c, "b.test:443", ""), get(c, "10.0.0.1:443", ""), get(c, "", "c.test")) }},
+		{"c06: distinct uncached hosts", func() {
+			c := newCfg()
+			parallel(get(c, "a.test:443", ""), get(c, "b.test:443", ""), get(c, "10.0.0.1:443", ""), get(c, "", "c.test"))
+		}},
 		{"c06: same uncached host", func() { c := newCfg(); parallel(get(c, "a.test:443", ""), get(c, "a.test", ""), get(c, "", "a.test")) }},
 		{"c06: cached and uncached", func() {
 			c := newCfg()
@@ -103,12 +108,112 @@ func c17() []scenario {
 	}
 }
 
+func c02() []scenario {
+	// contexts and sessions are created per exchange on every connection concurrently; the request->context
+	// table is global
+	mk := func(i int) func() {
+		return func() {
+			for k := 0; k < 20; k++ {
+				r, _ := http.NewRequest("GET", fmt.Sprintf("http://example.com/%d/%d", i, k), nil)
+				ctx, remove, err := martian.TestContext(r, nil, nil)
+				if err != nil {
+					panic(err)
+				}
+				_ = ctx.ID() + ctx.Session().ID()
+				if martian.NewContext(r) != ctx {
+					panic("context table lost an entry")
+				}
+				ctx.Set("k", k)
+				ctx.Session().Set("s", k)
+				remove()
+			}
+		}
+	}
+	// ids generated concurrently must be pairwise distinct (the race detector cannot see writes made by the
+	// getrandom system call, so this is asserted directly)
+	// ids generated concurrently by real connection handlers must be pairwise distinct (the race detector cannot
+	// see writes made by the getrandom system call, so this is asserted directly): a real proxy on loopback TCP,
+	// many keep-alive connections, a request modifier that records the ids and skips the round trip
+	uniq := func() {
+		const conns, per = 16, 150
+		var mu sync.Mutex
+		ids := map[string]int{}
+		total := 0
+		p := martian.NewProxy()
+		p.SetRequestModifier(martian.RequestModifierFunc(func(req *http.Request) error {
+			ctx := martian.NewContext(req)
+			ctx.SkipRoundTrip()
+			mu.Lock()
+			ids["ctx:"+ctx.ID()]++
+			total++
+			mu.Unlock()
+			return nil
+		}))
+		sess := map[string]bool{}
+		p.SetResponseModifier(martian.ResponseModifierFunc(func(res *http.Response) error {
+			ctx := martian.NewContext(res.Request)
+			mu.Lock()
+			sess[ctx.Session().ID()] = true
+			mu.Unlock()
+			return nil
+		}))
+		l, err := net.Listen("tcp", "127.0.0.1:0")
+		if err != nil {
+			return
+		}
+		go p.Serve(l)
+		var fs []func()
+		for c := 0; c < conns; c++ {
+			fs = append(fs, func() {
+				conn, err := net.Dial("tcp", l.Addr().String())
+				if err != nil {
+					return
+				}
+				defer conn.Close()
+				br := bufio.NewReader(conn)
+				for k := 0; k < per; k++ {
+					fmt.Fprintf(conn, "GET http://example.com/ HTTP/1.1\r\nHost: example.com\r\n\r\n")
+					res, err := http.ReadResponse(br, nil)
+					if err != nil {
+						return
+					}
+					io.Copy(io.Discard, res.Body)
+					res.Body.Close()
+				}
+			})
+		}
+		parallel(fs...)
+		p.Close()
+		dups := 0
+		for _, n := range ids {
+			if n > 1 {
+				dups += n - 1
+			}
+		}
+		if dups > 0 {
+			fmt.Fprintf(os.Stderr, "RACEBODY VIOLATION ids:duplicate_context_id %d of %d exchanges on %d concurrent connections share a context id\n", dups, total, conns)
+		}
+		if len(sess) < conns && total == conns*per {
+			fmt.Fprintf(os.Stderr, "RACEBODY VIOLATION ids:duplicate_session_id %d connections but only %d distinct session ids\n", conns, len(sess))
+		}
+	}
+	return []scenario{
+		{"c02: concurrent context creation, lookup and removal", func() { parallel(mk(0), mk(1), mk(2), mk(3)) }},
+		{"c02: ids generated concurrently are distinct", uniq},
+	}
+}
+
 type sink struct {
 	mu sync.Mutex
 	n  int
 }
 
-func (s *sink) Write(p []byte) (int, error) { s.mu.Lock(); s.n += len(p); s.mu.Unlock(); return len(p), nil }
+func (s *sink) Write(p []byte) (int, error) {
+	s.mu.Lock()
+	s.n += len(p)
+	s.mu.Unlock()
+	return len(p), nil
+}
 
 func c19() []scenario {
 	return []scenario{
@@ -143,6 +248,9 @@ func main() {
 		iters, _ = strconv.Atoi(os.Args[2])
 	}
 	var scen []scenario
+	if set == "c02" || set == "all" {
+		scen = append(scen, c02()...)
+	}
 	if set == "c06" || set == "all" {
 		scen = append(scen, c06()...)
 	}
